@@ -469,8 +469,9 @@ theorem ok_ite {c : Prop} [Decidable c] {z : Z} {a b : Token × Z}
 theorem scanInLine_res (C : Classes) (z0 : Z) : Res z0 (scanInLine C z0) := by
   unfold scanInLine
   have hs : Adv z0 (skipSpaces z0) := advWhile_adv _ z0
-  simp only []
   generalize skipSpaces z0 = z at hs ⊢
+  unfold scanInLineAt
+  simp only []
   split
   · rename_i heq
     refine ⟨mkTok_good _ _ hs (Adv.refl z), ?_, ?_⟩
